@@ -70,6 +70,7 @@ structure TaskInv (s : State) : Prop where
 @[simp] theorem setPc_exiting (s : State) (w : Nat) (p : PC) : (setPc s w p).exiting = s.exiting := rfl
 @[simp] theorem setPc_pend (s : State) (w : Nat) (p : PC) : (setPc s w p).pend = s.pend := rfl
 @[simp] theorem setPc_idle (s : State) (w : Nat) (p : PC) : (setPc s w p).idle = s.idle := rfl
+@[simp] theorem setPc_nextQ (s : State) (w : Nat) (p : PC) : (setPc s w p).nextQ = s.nextQ := rfl
 @[simp] theorem setPc_joined (s : State) (w : Nat) (p : PC) : (setPc s w p).joined = s.joined := rfl
 
 theorem Fresh.of_eq {s s' : State} {id : Nat} (h : Fresh s id) (h1 : s'.ran = s.ran)
